@@ -531,6 +531,11 @@ def select_units(ctx, cases, conf_bad):
         tree = cover_and_sample(ctx, by_model["tree"], 15000) + by_model["broken"]
         fail = cover_and_sample(ctx, by_model["fail"], 1500, pairs=False)
         side, nbad = 1500, 300
+        cap = int(os.environ.get("VERIF_CAP", "0"))
+        if cap:      # smoke run of the thorough path on an overloaded machine
+            sel, tree, fail = vlib.sample(ctx, sel, cap), vlib.sample(ctx, tree, cap), vlib.sample(ctx, fail, max(1, cap // 10))
+            side, nbad = max(1, cap // 10), 5
+            ctx.note("VERIF_CAP=%d: thorough tier capped, not a full run" % cap)
     units = [(c, "plain") for c in sel + tree + fail]
     for k in ("ign", "mal", "unm"):
         units += [(c, k) for c in vlib.sample(ctx, sel, side) + vlib.sample(ctx, tree, side)]
@@ -667,7 +672,8 @@ def run(ctx):
         "traces_validated_against_impl": n_conf + nunits + bunits,
         "exhaustive": False,
         "exhaustive_parts": (["config.Load on every enumerated configuration"] +
-                             ([] if ctx.quick else ["end-to-end lint of every configuration of the sel and broken models (fixture kind plain)"])),
+                             ([] if (ctx.quick or os.environ.get("VERIF_CAP")) else
+                              ["end-to-end lint of every configuration of the sel and broken models (fixture kind plain)"])),
         "tlc": {"module": "MCChecks", "models": per_model, "invariants": LAWS},
         "distinct_configurations": len(cases),
         "documentation_examples_checked_on_spec": n_doc,
